@@ -532,4 +532,16 @@ theorem process_contStep_eq_targetStream :
       rw [Prod.ext_iff] at this
       simp [this.1, this.2]
 
+/-- non-empty data always has a last-rows window with a maximum end -/
+theorem lastEndMax_isSome_of_ne_nil {rows : List Row} (h : rows ≠ []) : ∃ e, lastEndMax rows = some e := by
+  unfold lastEndMax
+  have hlt : rows.length - 500 < rows.length := by
+    have : 0 < rows.length := List.length_pos_iff.mpr h
+    omega
+  cases hd : rows.drop (rows.length - 500) with
+  | nil =>
+    have := List.drop_eq_nil_iff.mp hd
+    omega
+  | cons r rs => exact ⟨_, rfl⟩
+
 end Strax.Contract
